@@ -290,7 +290,7 @@ func formatSwitchStmt(ctx *formatCtx, v *ast.SwitchStmt) {
 	old := ctx.enterBlock()
 	defer ctx.leaveBlock(old)
 
-	formatStmt(ctx, v.Init)
+	formatSimpleStmt(ctx, v.Init)
 	formatExpr(ctx, v.Tag, &v.Tag)
 	formatBlockStmt(ctx, v.Body)
 }
@@ -299,7 +299,7 @@ func formatTypeSwitchStmt(ctx *formatCtx, v *ast.TypeSwitchStmt) {
 	old := ctx.enterBlock()
 	defer ctx.leaveBlock(old)
 
-	formatStmt(ctx, v.Init)
+	formatSimpleStmt(ctx, v.Init)
 	formatStmt(ctx, v.Assign)
 	formatBlockStmt(ctx, v.Body)
 }
@@ -308,7 +308,7 @@ func formatIfStmt(ctx *formatCtx, v *ast.IfStmt) {
 	old := ctx.enterBlock()
 	defer ctx.leaveBlock(old)
 
-	formatStmt(ctx, v.Init)
+	formatSimpleStmt(ctx, v.Init)
 	formatExpr(ctx, v.Cond, &v.Cond)
 	formatBlockStmt(ctx, v.Body)
 	formatStmt(ctx, v.Else)
@@ -339,9 +339,20 @@ func formatForStmt(ctx *formatCtx, v *ast.ForStmt) {
 	old := ctx.enterBlock()
 	defer ctx.leaveBlock(old)
 
-	formatStmt(ctx, v.Init)
+	formatSimpleStmt(ctx, v.Init)
 	formatExpr(ctx, v.Cond, &v.Cond)
+	formatSimpleStmt(ctx, v.Post)
 	formatBlockStmt(ctx, v.Body)
+}
+
+// formatSimpleStmt formats the init or post statement of an if, for or switch header. A call
+// statement there keeps its parentheses: command style cannot be followed by `;` or `{`.
+func formatSimpleStmt(ctx *formatCtx, stmt ast.Stmt) {
+	if v, ok := stmt.(*ast.ExprStmt); ok {
+		formatExpr(ctx, v.X, &v.X)
+		return
+	}
+	formatStmt(ctx, stmt)
 }
 
 func formatDeclStmt(ctx *formatCtx, v *ast.DeclStmt) {
